@@ -401,6 +401,36 @@ def run(ctx):
                   "that should carry the prefix lose it whenever that condition holds" % (bad[2],) if bad else "",
                   "the un-prefixed exits depend on the item only")
     ctx.floor("R07.6", "macro name functions that read the container prefix", n6, 2)
+    # ------------------------------------------------------------------ R07.8 the name that is written is what the style makes of the base name
+    # an item's base name (its identifier) never leaves a name function as it is: it is returned only through the style table
+    # (`style.apply(base)`, `prefix.apply(base, style)`); the one un-inflected exit is the item's explicit name. A shortcut that returns
+    # the identifier because it "already looks like" the requested style skips the table for exactly the inputs on which the two disagree
+    # (`p99_latency` is `p_99_latency` in the table's snake case)
+    by_trait = {}
+    for b in F.all_bodies(MAC):
+        tr_ = (b.impl or {}).get("trait") or ""
+        if tr_.startswith(MAC + "::") and b.arg_count == 1:
+            by_trait.setdefault(tr_, {}).setdefault(b.name, set()).add(b.d.get("output") or "")
+    base_methods = set()
+    for tr_, ms in by_trait.items():
+        if any(any(o_.startswith("core::option::Option<&") for o_ in outs) for outs in ms.values()):
+            base_methods |= {(tr_, m_) for m_, outs in ms.items() if outs == {"alloc::string::String"}}
+    ctx.floor("R07.8", "base-name accessors of the macro's item model (by role)", len(base_methods), 1)
+    n8 = 0
+    for b in F.all_bodies(MAC):
+        if b.kind == "Closure" or not (b.d.get("output") or "").endswith("string::String"):
+            continue
+        bases = [c for c in b.calls() if (c.trait or "", c.name) in base_methods]
+        if not bases or (((b.impl or {}).get("trait") or ""), b.name) in base_methods:
+            continue
+        n8 += 1
+        pr8 = Prov(b)
+        leaked = [c for c in bases if ("call", c.bb) in pr8.local(0) or ("via", c.bb) in pr8.local(0)]
+        ctx.check(not leaked, "R07.8", fnkey(b) + "#base-name-only-through-the-style-table", loc(b, leaked[0].bb if leaked else None),
+                  "the item's base name is returned as it is on some path (not through `apply` of the name style / prefix, and not the item's explicit "
+                  "name): for identifiers on which the shortcut's idea of the style and the style table disagree the item is written under another name "
+                  "than the style prescribes", "every exit is an explicit name or an `apply` result")
+    ctx.floor("R07.8", "name functions that read an item's base name", n8, 2)
     # ------------------------------------------------------------------ R07.7 what is generated for one item does not depend on its siblings
     # "exactly one item per field, under that field's inflected name": in the macro's per-item loops no token-valued variable carries a
     # value computed for one item into the code generated for a later one (a namespace / prefix left over from the previous field). An
